@@ -1,7 +1,7 @@
 SPECIFICATION Spec
 CONSTANTS
   Shapes <- MCShapes
-  ShapeNames = {"leaf", "branch2", "dupleaf"}
+  ShapeNames = {"branch2"}
   Caps = {1, 3}
   Algos = {"double", "single"}
   FaultSets = {{"cancel", "timeout", "evict", "lose"}}
